@@ -151,6 +151,8 @@ class Renderer:
     for g in groups: L.extend(g)
     for a, b in c.get("uu", []):
       L.append(f"    s.add_constraints( U({a}) < U({b}) )")
+    for k, sig, op, b in c.get("rdwr", []):
+      L.append(f"    s.add_constraints( {k}(s.{sig}) {op} U({b}) )")
     if len(L) == 2: L.append("    pass")
     return "\n".join(L) + "\n"
 
